@@ -864,6 +864,24 @@ func (env *SpecEnv) evalCall(st, old *State, x *ast.CallExpr) Val {
 			return Val{v.T, types.Typ[types.String]}
 		}
 		return Val{c.bytesToStr(st, v.T), types.Typ[types.String]}
+	case "ctxUnder", "ctxChild":
+		// ctxUnder(c, p): context c is p or was derived (transitively) from p:
+		// cancelling p reaches c. ctxChild(c, p): c was derived from p by one
+		// derivation step (the strong form, for contracts of module functions
+		// that wrap a dependency's derivation). Both read the ancestor set the
+		// engine records at every derivation (ctxDerive).
+		cv, pv := arg(0), arg(1)
+		if cv.T.Sort != SInt || pv.T.Sort != SInt {
+			env.errf("%s() on non-context", name)
+			return Val{True, boolT}
+		}
+		u.eng.d.Fun("sf_ctxAnc", []string{SInt}, ArraySort(SInt, SBool))
+		ancC := App("sf_ctxAnc", ArraySort(SInt, SBool), cv.T)
+		ancP := App("sf_ctxAnc", ArraySort(SInt, SBool), pv.T)
+		if name == "ctxChild" {
+			return Val{Eq(ancC, Store(ancP, pv.T, True)), boolT}
+		}
+		return Val{Or(Eq(cv.T, pv.T), Select(ancC, pv.T)), boolT}
 	case "wgcount":
 		// wgcount(wg): Add()s minus Done()s performed on wg by this unit so far
 		k := "$wg:" + exprString(x.Args[0])
